@@ -3,6 +3,9 @@
 
 mod globals;
 
+#[cfg(capy_verif)]
+mod verif_trace;
+
 #[cfg(test)]
 mod tests;
 
@@ -604,6 +607,16 @@ impl<'a, F: EvalComptimeFn> InferenceCtx<'a, F> {
                     // }),
         );
 
+        #[cfg(capy_verif)]
+        let mut verif_trace = verif_trace::VerifTrace::default();
+        #[cfg(capy_verif)]
+        verif_trace.list(
+            "S",
+            &(self.to_infer.peek_all())
+                .map(|v| v.into_iter().cloned().collect_vec())
+                .unwrap_or_default(),
+        );
+
         if self.to_infer.is_empty() {
             return InferenceResult {
                 tys: self.tys,
@@ -623,6 +636,9 @@ impl<'a, F: EvalComptimeFn> InferenceCtx<'a, F> {
                         .into_iter()
                         .cloned()
                         .collect_vec();
+
+                    #[cfg(capy_verif)]
+                    verif_trace.list("C", &cyclic);
 
                     // todo: sometimes the order of what is evaluated can change the errors a lot
                     // (see tests::get_const_on_cyclic_globals)
@@ -663,6 +679,9 @@ impl<'a, F: EvalComptimeFn> InferenceCtx<'a, F> {
                 }
             };
 
+            #[cfg(capy_verif)]
+            verif_trace.list("L", &leaves);
+
             assert!(!leaves.is_empty());
 
             // println!("inferring leaves: {leaves:#?}");
@@ -680,9 +699,13 @@ impl<'a, F: EvalComptimeFn> InferenceCtx<'a, F> {
                             "--- FINISHED TYPING {} ---",
                             inferrable.debug(self.interner)
                         );
+                        #[cfg(capy_verif)]
+                        verif_trace.list("R", &[inferrable]);
                         self.to_infer.remove(&inferrable);
                     }
                     Err(deps) => {
+                        #[cfg(capy_verif)]
+                        verif_trace.deps(inferrable, &deps, &self.all_finished_locations);
                         // println!(" - requires deps");
                         self.to_infer.insert_deps(inferrable, deps);
                     }
@@ -702,6 +725,12 @@ impl<'a, F: EvalComptimeFn> InferenceCtx<'a, F> {
             if self.to_infer.is_empty() {
                 break;
             }
+        }
+
+        #[cfg(capy_verif)]
+        {
+            verif_trace.end(self.to_infer.len());
+            drop(verif_trace);
         }
 
         let mut any_were_unsafe_to_compile = false;
